@@ -64,9 +64,9 @@ func (prop) Info() fw.Info {
 			"the Sysl parser is trusted to deliver the tables as written (that is C02's subject); the start line it reports for each table is cross-checked against the renderer's own line count",
 		},
 		CaseTimeout: 60,
-		SetFloors:   map[string]int{"ddl_forms": 20, "edit_kinds": len(EditKinds), "column_changes": 15},
-		CountFloors: map[string]int{"tables": 500, "columns": 1500, "fks": 200, "statements": 1000, "pairs": 150, "chains": 30,
-			"same_line_groups": 10, "identity_deltas": 200},
+		SetFloors:   map[string]int{"ddl_forms": 20, "edit_kinds": len(EditKinds), "column_changes": 40},
+		CountFloors: map[string]int{"tables": 500, "columns": 1500, "fks": 200, "statements": 1000, "pairs": 150, "chains": 20,
+			"same_line_groups": 10, "identity_deltas": 200, "composite_keys": 100, "autoinc_columns": 100},
 	}
 }
 
